@@ -327,6 +327,33 @@ class SimEnv:
 
         os.access = sim_access
 
+        # allocation failure where whole documents are serialised / parsed in one piece: the json entry points, when
+        # called from the system under test (the harness itself uses json for every event it emits)
+        import json as _json
+        import sys as _sys
+
+        def wrap_alloc(name):
+            real = getattr(_json, name)
+            self._orig["alloc:" + name] = real
+
+            def sim_alloc(*a, **k):
+                caller = _sys._getframe(1).f_code.co_filename
+                if "/hta/" not in caller or env.cur_op < 0:
+                    return real(*a, **k)
+                site = "json." + name
+                n = env.count_io("@alloc", site)
+                env.log("alloc_site", site=site, call=n)
+                f = env._match_fault("alloc_fail", "@alloc", site=site, call=n)
+                if f is not None:
+                    env.fire(f, "@alloc", at=site, call=n)
+                    raise MemoryError()
+                return real(*a, **k)
+
+            setattr(_json, name, sim_alloc)
+
+        for name in ("dumps", "dump", "loads", "load"):
+            wrap_alloc(name)
+
         # names of temporary files come from the plan, not from os.urandom (a fault placed on such a path must
         # find the same name when the plan is executed again)
         import tempfile
@@ -442,6 +469,8 @@ class _FileProxy:
         f = env._match_fault("read_eio", rel, open_k=self._open_k, call=n)
         if f is not None:
             env.fire(f, rel, at="read", call=n, open_k=self._open_k)
+            if f.get("exc") == "MemoryError":
+                raise MemoryError()   # the buffer for the file's content could not be allocated
             eno = getattr(errno, str(f.get("errno", "EIO")), errno.EIO)
             raise OSError(eno, os.strerror(eno))
 
